@@ -1,0 +1,32 @@
+//go:build verif
+// +build verif
+
+package server
+
+import "github.com/XiaoMi/Gaea/models"
+
+// Add-only exports for the verification harness (build tag verif), property C29.
+
+// VerifCredential is one entry of UserManager.userNamespaces.
+type VerifCredential struct {
+	User, Password, Namespace string
+}
+
+// VerifDump returns a copy of the two maps of a UserManager: the password list
+// of every user name (in list order) and the namespace of every credential key.
+func (u *UserManager) VerifDump() (users map[string][]string, creds []VerifCredential) {
+	users = make(map[string][]string, len(u.users))
+	for k, v := range u.users {
+		users[k] = append([]string(nil), v...)
+	}
+	for k, ns := range u.userNamespaces {
+		name, pw := getUserAndPasswordFromKey(k)
+		creds = append(creds, VerifCredential{User: name, Password: pw, Namespace: ns})
+	}
+	return users, creds
+}
+
+// VerifAddNamespaceUsers exposes addNamespaceUsers.
+func (u *UserManager) VerifAddNamespaceUsers(namespace *models.Namespace) {
+	u.addNamespaceUsers(namespace)
+}
